@@ -124,8 +124,16 @@ def run(chk):
         "model = Gallina mirror of to_symm_qsm / to_general_qsm / matmul / evaluate / evaluate_diag, generic in (h, Pinf, A, order)",
         "(a) exact-integer correspondence on a synthetic structured-coordinate user kernel over weak orderings of the merged points; "
         "(b) tolerance correspondence on built-in kernels and expressions with h, Pinf, A tables taken from the implementation's own methods",
+        "(c) end to end for Exp / Matern-3/2 / Matern-5/2 / Cosine / Celerite: the tables regenerated from the source by the translator satisfy the laws and give the documented closed form (W1/W2 join)",
     ]
-    proof_ok = chk.prove()
+    # the end-to-end theorems (Theory/SSKBuiltin.v) are about the state-space tables regenerated from the source on this run
+    from vcheck.w2common import run_translator
+    trans_ok, trans_msg = run_translator(chk)
+    proof_ok = chk.prove() if trans_ok else False
+    if not trans_ok:
+        chk.cov.update(obligations=0, discharged=0, checker_cmd="(translator failed before make)", trusted_base=[])
+        chk.proof = dict(failing_file="tools/translate/gen_kernels.py", failing_line=0, failing_theorem="translator rejects the current source",
+                         log=trans_msg)
     rng = np.random.default_rng(chk.seed)
     quick = chk.tier == "quick"
     exprs, expect, corr_bad, oracle_bad = [], [], [], []
